@@ -1073,9 +1073,11 @@ int32_t jls_core_rd_fsr_data0(struct jls_core_s * self, uint16_t signal_id, int6
     int64_t offset = idx->offsets[idx_entry];
     struct jls_fsr_data_s * r;
 
+    bool omitted = false;
     if (0 == offset) {
         // omitted, assume full chunk
-        chunk_sample_id = INT64_MAX - INT32_MAX;
+        omitted = true;
+        chunk_sample_id = INT64_MAX;
     } else if (jls_raw_chunk_seek(self->raw, offset)) {
         return JLS_ERROR_NOT_FOUND;
     } else {
@@ -1096,7 +1098,7 @@ int32_t jls_core_rd_fsr_data0(struct jls_core_s * self, uint16_t signal_id, int6
         }
     }
 
-    if (start_sample_id < chunk_sample_id) {  // omitted chunk
+    if (omitted || (start_sample_id < chunk_sample_id)) {  // omitted chunk
         ROE(reconstruct_omitted_chunk(self, signal_id, start_sample_id));
     }
 
